@@ -186,6 +186,11 @@ fn get_integer(buf: &mut Cursor<&[u8]>) -> Result<i64, Error> {
     let start = buf.position() as usize;
     let end = buf.get_ref().len() - 1;
 
+    if start > end {
+        // nothing follows the sign byte
+        return Err(Error::Incomplete);
+    }
+
     let mut idx = start;
     let mut num: i64 = 0;
 
